@@ -1343,6 +1343,12 @@ class Exec:  # an execution path
         """
         assert_bv(who)
         assert_address(who)
+
+        if who not in self.code:
+            # a symbolic address that was resolved to "no account" so far may denote the new account
+            for target in [t for t, addr in self.alias.items() if addr is None]:
+                del self.alias[target]
+
         self.code[who] = code if isinstance(code, Contract) else Contract(code)
 
     def __str__(self) -> str:
@@ -2278,7 +2284,10 @@ class SEVM:
             return None
 
         if target in ex.alias:
-            return ex.alias[target]  # may return None
+            alias = ex.alias[target]  # may be None
+            # the account may be gone again (it was created in a frame that has been reverted since)
+            if alias is None or alias in ex.code:
+                return alias
 
         potential_aliases = []
         for addr in ex.code:
